@@ -10,6 +10,8 @@ def run(F, G, tier, seed):
     frontends.run(chk, F, G)
     T = stack.Typing(F, G, CG, "UTAP::DocumentBuilder")
     scopes.lexer_scope(chk, F, G, T)
+    from ..lexer import Lexer
+    frontends.run_idchars(chk, F, Lexer(F))
     return chk.finish(
         "Decides the front-end conformance clauses of C05: both front ends are drivers of one builder interface, so "
         "the input format can only show where they issue different callbacks or arguments for the same construct, or "
